@@ -12,6 +12,7 @@ import (
 	bnet "github.com/bio-routing/bio-rd/net"
 	"github.com/bio-routing/bio-rd/protocols/bgp/types"
 	"github.com/bio-routing/bio-rd/route"
+	"github.com/bio-routing/bio-rd/util/log"
 )
 
 // zvSelPD describes one candidate path of the domain by its attributes.
@@ -222,4 +223,22 @@ func zvSelCPU() float64 {
 		return 0
 	}
 	return float64(ru.Utime.Sec) + float64(ru.Utime.Usec)/1e6 + float64(ru.Stime.Sec) + float64(ru.Stime.Usec)/1e6
+}
+
+// zvSelQuiet: LocRIB.AddPath/RemovePath build a structured log entry per call
+// (half of their cost). Logging is not part of the properties; a silent logger
+// only makes the enumeration cheaper.
+type zvSelNoLog struct{}
+
+func (zvSelNoLog) Errorf(string, ...interface{})               {}
+func (zvSelNoLog) Infof(string, ...interface{})                {}
+func (zvSelNoLog) Debugf(string, ...interface{})               {}
+func (zvSelNoLog) Error(string)                                {}
+func (zvSelNoLog) Info(string)                                 {}
+func (zvSelNoLog) Debug(string)                                {}
+func (l zvSelNoLog) WithFields(log.Fields) log.LoggerInterface { return l }
+func (l zvSelNoLog) WithError(error) log.LoggerInterface       { return l }
+
+func zvSelQuiet() {
+	log.SetLogger(zvSelNoLog{})
 }
